@@ -27,6 +27,20 @@ _LOGGER.setLevel(logging.CRITICAL)
 _LOGGER.propagate = False
 _LOGGER.addHandler(logging.NullHandler())
 
+
+class _FormatEverything(logging.Handler):
+    """Swallows the records, but formats them first (as a real log file would)."""
+
+    def emit(self, record):
+        record.getMessage()
+
+
+# the same objects with every log statement live (behaviour must not depend on the log level)
+_DEBUG_LOGGER = logging.getLogger("verif.er.debug")
+_DEBUG_LOGGER.setLevel(logging.DEBUG)
+_DEBUG_LOGGER.propagate = False
+_DEBUG_LOGGER.addHandler(_FormatEverything())
+
 DEFAULT_AT = [
     ("ExcludeRegion", r"^\s*(enable|on)(\s|$)", "enable_exclusion"),
     ("ExcludeRegion", r"^\s*(disable|off)(\s|$)", "disable_exclusion"),
@@ -162,8 +176,9 @@ class FilterRig(object):
         cfg = cfg or {}
         self.cfg = cfg
         self.ignore = IGNORE_GCODE_CMD
-        self.state = ExcludeRegionState(_LOGGER)
-        self.handlers = GcodeHandlers(self.state, _LOGGER)
+        logger = _DEBUG_LOGGER if cfg.get("debug") else _LOGGER
+        self.state = ExcludeRegionState(logger)
+        self.handlers = GcodeHandlers(self.state, logger)
         self.state.g90InfluencesExtruder = bool(cfg.get("g90e", False))
         self.state.enteringExcludedRegionGcode = list(cfg["enter"]) if cfg.get("enter") else None
         self.state.exitingExcludedRegionGcode = list(cfg["exit"]) if cfg.get("exit") else None
@@ -338,7 +353,7 @@ def _init_octoprint_settings():
 class PluginRig(object):
     """The real ExcludeRegionPlugin with real plugin settings and mocked OctoPrint surroundings."""
 
-    def __init__(self, overrides=None, g90e=False):
+    def __init__(self, overrides=None, g90e=False, debug=False):
         from unittest import mock
         _init_octoprint_settings()
         import octoprint_excluderegion as ER
@@ -349,7 +364,7 @@ class PluginRig(object):
         settings().setBoolean(["feature", "g90InfluencesExtruder"], bool(g90e))
         plugin = ER.ExcludeRegionPlugin()
         plugin._identifier = "excluderegion"
-        plugin._logger = _LOGGER
+        plugin._logger = _DEBUG_LOGGER if debug else _LOGGER
         plugin._plugin_manager = mock.Mock()
         plugin._plugin_version = "verif"
         pre = plugin.get_settings_preprocessors()
